@@ -40,7 +40,9 @@ def main():
             shutil.copy(os.path.join(src, d), dst)
             placed.append(dst)
             tags = " -tags purego" if re.search(r"go:build.*purego", txt) and "!purego" not in txt else ""
-            race = " -race" if "race" in open(os.path.join(src, "notes.md")).read().lower() and pid == "C20" else ""
+            notes_l = open(os.path.join(src, "notes.md")).read().lower()
+            # -race only when the notes ask for it (some demonstrations run for many minutes under the detector)
+            race = " -race" if pid == "C20" and "race" in notes_l and not re.search(r"(no|not need|without|needs no|does not need) `?-race", notes_l) else ""
             demo_cmds.append((f"go test -vet=off -count=1{tags}{race} -run 'Demo' ./{ddir}", wt))
         if prog:
             shutil.copytree(os.path.join(src, "demo"), os.path.join(wt, "zz_demo"))
